@@ -11,8 +11,10 @@ go build ./... || { echo BUILD-FAIL; exit 3; }
 suite=$(go test -vet=off -count=1 ./... 2>&1 | grep -E "^(FAIL|---|panic)" | head -5)
 [ -z "$suite" ] && echo "suite_with_change=PASS" || { echo "suite_with_change=FAIL"; echo "$suite"; }
 cp "$OUT/$DEMO" "$PKG/zz_mutdemo_test.go"
-if go test -vet=off -count=1 "./$PKG/" -run 'Demo|Mut|Seed' >/tmp/demo_with.log 2>&1; then echo "demo_with_change=PASS(unexpected)"; else echo "demo_with_change=FAIL(expected)"; fi
+RUN=$(grep -o 'func Test[A-Za-z0-9_]*' "$OUT/$DEMO" | sed 's/func //' | paste -sd'|')
+[ -z "$RUN" ] && { echo "NO-TESTS-IN-DEMO"; exit 3; }
+if go test -vet=off -count=1 "./$PKG/" -run "^($RUN)\$" >/tmp/demo_with.log 2>&1; then echo "demo_with_change=PASS(unexpected)"; else echo "demo_with_change=FAIL(expected)"; fi
 git apply -R "$OUT/patch.diff" 2>/dev/null || { git checkout -q -- . ; }
-if go test -vet=off -count=1 "./$PKG/" -run 'Demo|Mut|Seed' >/tmp/demo_without.log 2>&1; then echo "demo_without_change=PASS(expected)"; else echo "demo_without_change=FAIL(unexpected)"; tail -5 /tmp/demo_without.log; fi
+if go test -vet=off -count=1 "./$PKG/" -run "^($RUN)\$" >/tmp/demo_without.log 2>&1; then echo "demo_without_change=PASS(expected)"; else echo "demo_without_change=FAIL(unexpected)"; tail -5 /tmp/demo_without.log; fi
 grep -c "^=== RUN" /tmp/demo_without.log /tmp/demo_with.log 2>/dev/null
 git checkout -q -- . ; git clean -qfd
